@@ -37,6 +37,7 @@ def plan(tier, seed):
         shards.append({"kind": "malformed", "n": 4000})
         shards.append({"kind": "uri"})
         shards.append({"kind": "e2e", "n": 6})
+        shards.append({"kind": "corners"})
     else:
         step = 20_000_000 // 40
         for i in range(40):
@@ -48,6 +49,7 @@ def plan(tier, seed):
         shards.append({"kind": "malformed", "n": 60000})
         shards.append({"kind": "uri"})
         shards.append({"kind": "e2e", "n": 40})
+        shards.append({"kind": "corners"})
     return shards
 
 
@@ -103,6 +105,8 @@ def run(ctx, shard):
         run_uri(ctx, util)
     elif kind == "e2e":
         run_e2e(ctx, shard)
+    elif kind == "corners":
+        run_corners(ctx, util)
 
 
 def run_mantissa(ctx, shard, util):
@@ -358,3 +362,47 @@ def run_e2e(ctx, shard):
                     c.nontrivial("e2e", s, b)
             ctx.sample({"e2e_string": s, "tuple": list(tup)})
         os.remove(path)
+
+
+def run_corners(ctx, util):
+    """Deterministic corner denotations: zero coordinates, empty ranges, ends at the chromosome length,
+    every spelling of 0 and of the length, tuples with None."""
+    L = 1000
+    cs = {n: L for n in NAMES}
+    k = 0
+    for name in NAMES:
+        cases = []
+        for a, b in [(0, 0), (0, 1), (0, L), (L, L), (L - 1, L), (5, 5), (0, None), (L, None), (999, None)]:
+            for sa in ([str(a), f"{a:,}"] + (["0k", "0.0k", "0M"] if a == 0 else []) + (["1k", "1.0k", "0.001M"] if a == L else [])):
+                if b is None:
+                    cases.append((f"{name}:{sa}-", (name, a, None), (name, a, L)))
+                else:
+                    for sb in ([str(b), f"{b:,}"] + (["0k", "0kb"] if b == 0 else []) + (["1k", "1,000", "1kb"] if b == L else [])):
+                        cases.append((f"{name}:{sa}-{sb}", (name, a, b), (name, a, b)))
+            cases.append(((name, a, b), None, (name, a, L if b is None else b)))
+        cases.append(((name, None, None), None, (name, 0, L)))
+        cases.append(((name, None, 0), None, (name, 0, 0)))
+        cases.append(((name, None, 7), None, (name, 0, 7)))
+        cases.append((name, (name, None, None), (name, 0, L)))
+        for inp, den_str, den_reg in cases:
+            k += 1
+            cid = f"corner:{k}"
+            if not ctx.want(cid):
+                continue
+            with ctx.case(cid, {"input": inp, "denotes": list(den_reg)}) as c:
+                if isinstance(inp, str) and den_str is not None:
+                    try:
+                        got = util.parse_region_string(inp)
+                    except ValueError as e:
+                        got = ("ValueError", str(e))
+                    c.check(tuple(got) == den_str, "region-string-wrong-denotation:corner",
+                            f"parse_region_string({inp!r}) = {got}, denotes {den_str}")
+                try:
+                    got2 = util.parse_region(inp, cs)
+                except ValueError as e:
+                    got2 = ("ValueError", str(e))
+                c.check(tuple(got2) == den_reg, "region-wrong-denotation:corner:" + ("zero-end" if den_reg[2] == 0 else
+                        "empty-range" if den_reg[1] == den_reg[2] else "other"),
+                        f"parse_region({inp!r}) = {got2}, denotes {den_reg}")
+                c.nontrivial("corner", repr(inp))
+    ctx.sample({"corner": "chr1:0-0", "denotes": ["chr1", 0, 0]})
